@@ -5,8 +5,9 @@ decides WHICH characters appear on WHICH row under WHICH number, of the parts of
 through (`append`, `append_tokens`, `remove_suffix`, `split`, `join`, `with_indent_guides`, the no-wrap
 half of `wrap`), and of the choice of options in `Traceback._render_stack`.
 
-Self-contained: plain strings (`List Char`) and lists of lines; styles do not exist here (they never
-change a character).  The Pygments lexer is a PARAMETER: the model receives the token texts and the
+Self-contained: plain strings (`List Char`) and lists of lines; the row model has no styles (they never
+change a character); token styles exist only as opaque ids up to `Syntax.highlight` (`highlightStyled`, added in the
+deepening round for `C17.highlight_styles_follow_tokens`).  The Pygments lexer is a PARAMETER: the model receives the token texts and the
 theorems assume the contract `tokens.flatten = pygPre … (code handed to the lexer)`.
 
 Every definition mirrors the Python statement by statement; quirks are kept.  Three *variant flags* exist
